@@ -1,6 +1,7 @@
 (** C19 — property theorems (statements only; proofs in [Proofs*.v]).
 
-    [get_index], [index], [index_mut], [from_vec], [from_slice], [new], [iter], [eq], [write], [read]
+    [get_index], [index], [index_mut], [from_vec], [from_slice], [new], [iter], [iter_mut_assign], [eq], [write], [read]
+    (and the width-checked [from_vec_chk], [from_slice_chk], [new_chk], [read_chk])
     are the model of the Rust code ([Model.v]); [valid], [offset], [product], [unflatten], [render],
     [wraps], [elems], [wf] are plain arithmetic ([Spec.v]).  Every statement is for all ranks
     (the shape is a list of any length, including the empty one). *)
@@ -54,6 +55,25 @@ Theorem c19_constructors_reject : forall (A : Type) (ds : list N) (l : list A) (
   (~ In 0 ds -> new ds v = Some (mk ds (repeat v (N.to_nat (product ds)))) /\
                 wf (mk ds (repeat v (N.to_nat (product ds))))).
 Proof. exact @constructors_reject. Qed.
+
+(** the element count as the code computes it ([volume]: checked multiplication, [W] = usize::MAX): whenever the
+    length of the data (from_vec, from_slice) resp. Π dims (new, read) is representable the checked constructors
+    are the unbounded ones of the statements above and below; a shape whose Π dims exceeds [W] is rejected by all
+    four, whatever the data (in particular data whose length equals the wrapped product) *)
+Theorem c19_checked_volume : forall (A : Type) (W : N) (ds : list N) (l : list A) (v : A) (toks : list (tok A)), 0 < W ->
+  (N.of_nat (length l) <= W -> from_vec_chk W ds l = from_vec ds l /\ from_slice_chk W ds l = from_slice ds l) /\
+  (product ds <= W -> new_chk W ds v = new ds v /\ read_chk W ds toks = read ds toks) /\
+  (W < product ds -> from_vec_chk W ds l = None /\ from_slice_chk W ds l = None /\
+                     new_chk W ds v = None /\ read_chk W ds toks = None).
+Proof. exact @checked_volume. Qed.
+
+(** iter_mut visits the elements in storage order: assigning through it overwrites the front of the storage
+    (all of it when as many values are supplied), the shape is untouched *)
+Theorem c19_iter_mut : forall (A : Type) (t : tensor A) (vs : list A), wf t ->
+  wf (iter_mut_assign t vs) /\ dims (iter_mut_assign t vs) = dims t /\
+  iter (iter_mut_assign t vs) = firstn (length (iter t)) vs ++ skipn (length vs) (iter t) /\
+  (length vs = length (iter t) -> iter (iter_mut_assign t vs) = vs).
+Proof. exact @iter_mut_spec. Qed.
 
 (** Index agrees with iteration order: t[idx] is the element of iter() at the row-major offset *)
 Theorem c19_index_iter : forall (A : Type) (t : tensor A) (idx : list N), wf t -> valid (dims t) idx ->
